@@ -707,3 +707,76 @@ func TestC07_PlainDecodesExactLongCount(t *testing.T) {
 		cl.done(true)
 	})
 }
+
+// TestC07_PowerOfTwoIndexes: bin indexes and index deltas that are exactly 2^k or next to it (k = 6, 7, 13, 14, 20,
+// 21, 27, 28: where the varint encodings change length), obtained with a logarithmic mapping whose index offset is
+// such an integer (the value 1 then has exactly that index) and values gamma^(2^k) above it.
+func TestC07_PowerOfTwoIndexes(t *testing.T) {
+	rapid.Check(t, func(t *rapid.T) {
+		cl := newCase("C07")
+		cl.label("direction:power-of-two-indexes")
+		alpha := rapid.SampledFrom([]float64{1e-6, 1e-5, 3e-5}).Draw(t, "alpha")
+		g := (1 + alpha) / (1 - alpha)
+		pow := func() int { return 1 << rapid.SampledFrom([]int{6, 7, 13, 14, 20, 21, 27, 28}).Draw(t, "k") }
+		off := pow() + rapid.IntRange(-1, 1).Draw(t, "offd")
+		if rapid.Bool().Draw(t, "negoff") {
+			off = -off
+		}
+		spec := gen.MapSpec{Kind: "log", Gamma: g, Offset: float64(off), Nominal: alpha}
+		m, err := spec.Build()
+		if err != nil {
+			t.Fatalf("C07 pow2: %v", err)
+		}
+		prodKind := rapid.SampledFrom([]string{"sparse", "paginated"}).Draw(t, "prod")
+		sc := skCfg{spec: spec, m: m, pos: gen.StoreKind{Name: prodKind}, neg: gen.StoreKind{Name: prodKind}}
+		s := sc.new()
+		k := newSkModel(m)
+		bud := model.NewBudget(gen.Quantum)
+		add := func(v float64) {
+			if v > m.MaxIndexableValue() || v < m.MinIndexableValue() {
+				return
+			}
+			if rapid.Bool().Draw(t, "negside") {
+				v = -v
+			}
+			if err := s.Add(v); err != nil {
+				t.Fatalf("C07 pow2: Add(%v): %v", v, err)
+			}
+			k.add(v, 1)
+			cl.logf("Add(%v) index %d", v, m.Index(math.Abs(v)))
+		}
+		// the middle of bin j above the bin of 1: gamma^(j+0.5)
+		binMid := func(j int) float64 { return math.Exp((float64(j) + 0.5) * math.Log(g)) }
+		add(binMid(0))
+		n := rapid.IntRange(1, 4).Draw(t, "n")
+		at := 0
+		for i := 0; i < n; i++ {
+			d := pow()
+			if d > 1<<21 {
+				d = 1 << rapid.SampledFrom([]int{6, 7, 13, 14, 20, 21}).Draw(t, "ksmall")
+			}
+			at += d + rapid.IntRange(-1, 1).Draw(t, "dd")
+			add(binMid(at))
+		}
+		var b []byte
+		s.Encode(&b, false)
+		content, _, err := refdec.Parse(b)
+		if err != nil {
+			t.Fatalf("C07 pow2 %s: the encoding is not a sequence of documented blocks: %v (stream % x)", sc, err, b)
+		}
+		if msg := contentVsModel(content, sc, k, true); msg != "" {
+			t.Fatalf("C07 pow2 %s: independent decoding of the encoding differs from the sketch: %s", sc, msg)
+		}
+		for _, tk := range []string{"sparse", "paginated"} {
+			tc := skCfg{spec: spec, m: m, pos: gen.StoreKind{Name: tk}, neg: gen.StoreKind{Name: tk}}
+			dec, err := ddsketch.DecodeDDSketch(b, tc.provider(), nil)
+			if err != nil {
+				t.Fatalf("C07 pow2 %s: DecodeDDSketch into %s failed: %v (stream % x)", sc, tk, err, b)
+			}
+			if msg := checkAgainstModel(obs.SK{Plain: dec}, tc, k, bud); msg != "" {
+				t.Fatalf("C07 pow2 %s -> %s: %s", sc, tk, msg)
+			}
+		}
+		cl.done(true)
+	})
+}
